@@ -45,34 +45,55 @@ def run_cases(
     nproc = max(1, min(nproc, len(cases)))
     work = Path(tempfile.mkdtemp(prefix="pool_", dir=scratch_base()))
     # cases may pin the interpreter hash seed of the process that runs them (C01): one batch set per hash seed
+    # a case marked "solo" gets a process of its own (it is the first and only simulation that interpreter ever loads)
     groups: Dict[Optional[str], List[Dict[str, Any]]] = {}
-    for c in cases:
-        groups.setdefault(str(c["hashseed"]) if "hashseed" in c else hashseed, []).append(c)
     batches_hs: List[Tuple[List[Dict[str, Any]], Optional[str]]] = []
+    shared = [c for c in cases if not c.get("solo")]
+    for c in cases:
+        hs = str(c["hashseed"]) if "hashseed" in c else hashseed
+        if c.get("solo"):
+            batches_hs.append(([c], hs))
+        else:
+            groups.setdefault(hs, []).append(c)
     for hs, cs in groups.items():
-        k = max(1, min(len(cs), round(nproc * len(cs) / len(cases)) or 1))
+        k = max(1, min(len(cs), round(nproc * len(cs) / len(shared)) or 1))
         for i in range(k):
             if cs[i::k]:
                 batches_hs.append((cs[i::k], hs))
+    batches_hs.sort(key=lambda b: -len(b[0]))  # long batches first
     procs = []
     try:
-        for i, (b, hs) in enumerate(batches_hs):
-            bf, of = work / f"batch{i}.json", work / f"out{i}.jsonl"
-            json.dump(b, open(bf, "w"))
-            cmd = [PY, "-X", "faulthandler"]
-            if warn_as_error:
-                cmd += ["-W", "error::RuntimeWarning"]
-            cmd += ["-m", "hivemon.drive.worker", str(bf), str(of)]
-            p = subprocess.Popen(cmd, env=worker_env(hs), stdout=subprocess.DEVNULL, stderr=open(work / f"err{i}.txt", "w"), cwd="/")
-            procs.append((p, of, b, work / f"err{i}.txt"))
         deadline = time.time() + timeout_s
         problems: List[str] = []
+        pending = list(enumerate(batches_hs))
+        running: List[Any] = []
+        while pending or running:
+            while pending and len(running) < nproc:
+                i, (b, hs) = pending.pop(0)
+                bf, of = work / f"batch{i}.json", work / f"out{i}.jsonl"
+                json.dump(b, open(bf, "w"))
+                cmd = [PY, "-X", "faulthandler"]
+                if warn_as_error:
+                    cmd += ["-W", "error::RuntimeWarning"]
+                cmd += ["-m", "hivemon.drive.worker", str(bf), str(of)]
+                p = subprocess.Popen(cmd, env=worker_env(hs), stdout=subprocess.DEVNULL, stderr=open(work / f"err{i}.txt", "w"), cwd="/")
+                procs.append((p, of, b, work / f"err{i}.txt"))
+                running.append(p)
+            running = [p for p in running if p.poll() is None]
+            if time.time() > deadline:
+                for p in running:
+                    p.kill()
+                    problems.append(f"worker timed out after {timeout_s}s (watchdog)")
+                if pending:
+                    problems.append(f"{len(pending)} batches never started before the watchdog fired")
+                break
+            if running and (len(running) >= nproc or not pending):
+                time.sleep(0.05)
         for p, of, b, ef in procs:
             try:
-                p.wait(timeout=max(1.0, deadline - time.time()))
+                p.wait(timeout=5)
             except subprocess.TimeoutExpired:
                 p.kill()
-                problems.append(f"worker timed out after {timeout_s}s (watchdog)")
         results: List[Dict[str, Any]] = []
         for p, of, b, ef in procs:
             got = []
